@@ -151,6 +151,9 @@ pub async fn serve(
         }
     }
 
+    // under simulation start the generators in a fixed order (HashMap order is per process)
+    #[cfg(xs_verif)]
+    let compacted_frames: std::collections::BTreeMap<_, _> = compacted_frames.into_iter().collect();
     // Process compacted frames
     for frame in compacted_frames.values().filter_map(|spawns| spawns.last()) {
         if let Some(topic) = frame.topic.strip_suffix(".spawn") {
